@@ -105,6 +105,12 @@ func init() {
 			pnum := 0
 			var els []c12el
 			pagesV, tocV := VL{}, VL{}
+			type oldHead struct {
+				text  string
+				level int
+				page  int
+			}
+			var oldHeads []oldHead // layout headings of earlier pages: their words may come back at another level
 			for pi := 0; pi < np; pi++ {
 				pnum += rng.Range(1, 3)
 				page := model.NewPage(612, 792)
@@ -199,6 +205,18 @@ func init() {
 						a := g.anchor()
 						el.anchors = []string{a}
 						el.text = "Layout head " + a
+						if it%3 == 0 {
+							// headings without a token of their own, so that their words can come back on a later
+							// page at another level (at most once per page)
+							if len(oldHeads) == 0 {
+								el.text, el.anchors = "Summary of the part", nil
+								oldHeads = append(oldHeads, oldHead{el.text, el.level, pnum})
+							} else if oldHeads[len(oldHeads)-1].page != pnum {
+								el.text, el.anchors = oldHeads[0].text, nil
+								el.level = oldHeads[len(oldHeads)-1].level%6 + 1
+								oldHeads = append(oldHeads, oldHead{el.text, el.level, pnum})
+							}
+						}
 						tocText := el.text
 						if rng.Chance(1, 3) {
 							tocText = " " + el.text + "  "
